@@ -647,6 +647,53 @@ func c31Scenario(name string, programs [][]time.Duration, consumer bool, termAft
 	}}
 }
 
+// c31IdleConsumerScenario: nobody reads Signals() during two complete
+// strobe-then-silence cycles; then the buffered signal is consumed and a third
+// cycle follows. The last strobe must still be followed by a signal.
+func c31IdleConsumerScenario(legacy bool) vsScenario {
+	name := "idle-consumer-3-cycles"
+	if legacy {
+		name += "/legacy-timer-chan"
+	}
+	return vsScenario{name: name, opts: vsched.Options{LegacyTimerChan: legacy}, mk: func() vsched.Instance {
+		e := &c31env{}
+		body := func() {
+			e.c = vstate.NewCoalescer(vsWindow)
+			var wg vsync.WaitGroup
+			wg.Add(1)
+			vsched.GoNamed("S1", func() {
+				defer wg.Done()
+				e.strobe("S1")
+				vtime.Sleep(2 * vsWindow)
+				e.strobe("S1")
+				vtime.Sleep(2 * vsWindow)
+				// the consumer wakes up: drains what is buffered
+				s := vsched.NewSelect(true)
+				vsched.RecvCase(s, e.c.Signals())
+				if s.Run() == 0 {
+					e.signals = append(e.signals, vnow())
+					e.log.add(hev{thread: "S1", what: "end", call: "signal", vt: vnow() + 1})
+				}
+				e.strobe("S1")
+			})
+			wg.Wait()
+			vsched.SleepQuiescent(int64(3 * vsWindow))
+			e.buffered = e.c.Signals().Len()
+			for {
+				s := vsched.NewSelect(true)
+				vsched.RecvCase(s, e.c.Signals())
+				if s.Run() != 0 {
+					break
+				}
+				e.signals = append(e.signals, vnow())
+				e.log.add(hev{thread: "main", what: "end", call: "signal", vt: vnow() + 1})
+			}
+			e.c.Terminate()
+		}
+		return vsched.Instance{Body: body, Judge: func(res *vsched.Result) vsched.Judgement { return judgeC31(e, res) }}
+	}}
+}
+
 func judgeC31(e *c31env, res *vsched.Result) vsched.Judgement {
 	j := vsched.Judgement{Obs: e.log.String() + fmt.Sprintf("| end=%s blocked=%s buffered=%d", res.End, strings.Join(res.Blocked, ","), e.buffered)}
 	viol := func(f string, a ...interface{}) {
@@ -766,9 +813,9 @@ func c31Scenarios() []vsScenario {
 	}
 	if !vr.Thorough() && os.Getenv("VERIF_REPLAY") == "" {
 		// Quick: each scenario under one of the two timer-channel semantics.
-		return []vsScenario{burst(false), term(false), gaps(true), edge(true)}
+		return []vsScenario{burst(false), term(false), gaps(true), edge(true), c31IdleConsumerScenario(false)}
 	}
-	return []vsScenario{burst(false), gaps(false), edge(false), term(false), burst(true), gaps(true), edge(true), term(true)}
+	return []vsScenario{burst(false), gaps(false), edge(false), term(false), c31IdleConsumerScenario(false), burst(true), gaps(true), edge(true), term(true), c31IdleConsumerScenario(true)}
 }
 
 func vschedC31(t *testing.T, r *vr.Report) string {
